@@ -2,6 +2,11 @@
 // back and releases, nothing else).  Used by C01 (integrity) and, with a recovery suffix, by C02 (liveness after such a history).
 #pragma once
 #include "tunnel_common.h"
+#ifndef VERIF_KNOWN_ENABLED_DEFINED
+#define VERIF_KNOWN_ENABLED_DEFINED
+static inline bool known_enabled(const char *tag) { const char *e = getenv("VERIF_KNOWN"); return e && (!strcmp(e, "1") || strstr(e, tag)); }
+#endif
+
 namespace advnet {
 using namespace hz;
 
@@ -10,8 +15,10 @@ using namespace hz;
 // server's 3-bit sequence number comes round) are one-fragment packets the server sends once and forgets, all lost together with the
 // first fragment of a crafted two-fragment packet; then the path is clean again.  Every packet the client writes to its tun device must
 // be one that was offered on the server's.
+inline CaseResult late_answer_case(Tape &t);
 inline CaseResult downwrap_case(Tape &t, bool recover_suffix)
 {
+	if (t.chance(1, 4) && !recover_suffix) return late_answer_case(t);
 	CaseResult r;
 	scn::Config c;
 	static const int QT[] = {1, 3, 2, 4, 5, 6};
@@ -27,7 +34,7 @@ inline CaseResult downwrap_case(Tape &t, bool recover_suffix)
 	// merge variant: is the new packet's first fragment lost as well?  Then nothing tells the client that the fragment it holds belongs to
 	// another packet: known finding K3 (known_findings.json), excluded by construction unless the driver replays the pinned case
 	bool lose_b0 = t.chance(1, 2), excluded_k3 = false;
-	if (merge && lose_b0 && !getenv("VERIF_KNOWN")) { lose_b0 = false; excluded_k3 = true; }
+	if (merge && lose_b0 && !known_enabled("K3")) { lose_b0 = false; excluded_k3 = true; }
 	c.srv_seed = t.u32() | 1; c.cli_seed = t.u32() | 1;
 	scn::Session s(c);
 	mon::TunMonitor tm; tm.attach(sim::W);
@@ -190,5 +197,84 @@ inline CaseResult downwrap_case(Tape &t, bool recover_suffix)
 	return r;
 }
 
+
+
+// Fourth shape (one adversarial-network case in four): nothing is lost.  The network duplicates one answer -- the one carrying the second
+// and last fragment of a two-fragment packet A -- and holds the copy back while everything else flows; eight downstream packets later the
+// server's 3-bit sequence number has come round, and the copy is released right behind the first fragment of packet B (same sequence
+// number, first fragment Adler-32-equivalent to A's).  The client must not take the late answer for B's second fragment (it only reads
+// answers to its three most recent queries); every packet it writes to its tun device must be one that was offered on the server's.
+inline CaseResult late_answer_case(Tape &t)
+{
+	CaseResult r;
+	scn::Config c;
+	static const int QT[] = {1, 3, 2, 4, 5, 6};
+	c.qtype = QT[t.pick({4, 3, 1, 2, 2, 2})];
+	c.lazy = t.chance(1, 2) ? 0 : 1;
+	c.downenc = (int)t.pick({5, 2, 2, 2, 2, 2});
+	c.frag = c.qtype == 6 ? t.range(50, 100) : t.range(60, 400);
+	int between = (int)(const int[]){7, 7, 7, 7, 15, 6, 8}[t.below(7)];
+	c.srv_seed = t.u32() | 1; c.cli_seed = t.u32() | 1;
+	scn::Session s(c);
+	mon::TunMonitor tm; tm.attach(sim::W);
+	s.start_server(); s.start_client(0);
+	int Fd = 0, srv_idx = 0; bool arm = false, have_copy = false, release_on_first = false, released = false; sim::Datagram copy;
+	sim::W.router = [&](const sim::Datagram &dg) {
+		if (dg.from_inst == srv_idx) {
+			refproto::Answer a; refproto::DownHdr h;
+			bool data = refproto::decode_answer(dg.data, a) && a.ok && a.payload.size() > 2 && !a.qname.empty() && (a.qname[0] == 'p' || a.qname[0] == 'P' || isdigit((unsigned char)a.qname[0]) || (a.qname[0] >= 'a' && a.qname[0] <= 'f') || (a.qname[0] >= 'A' && a.qname[0] <= 'F')) && refproto::down_header(a.payload, h);
+			if (data && !h.last && h.dn_frag == 0 && (int)a.payload.size() - 2 > Fd) Fd = (int)a.payload.size() - 2;
+			if (arm && !have_copy && data && h.last && h.dn_frag == 1) { copy = dg; have_copy = true; }
+			if (release_on_first && have_copy && data && !h.last && h.dn_frag == 0) {
+				sim::W.deliver_after(dg, sim::W.latency_us);
+				sim::W.deliver_after(copy, sim::W.latency_us + 200);
+				release_on_first = false; released = true;
+				return;
+			}
+		}
+		sim::W.deliver_after(dg, sim::W.latency_us);
+	};
+	srv_idx = s.srv->idx;
+	bool up = s.wait_all(150);
+	r.render = "adversarial network, late copy of a downstream answer: " + c.describe();
+	if (sim::W.livelock) r.fail("C01:livelock", "simulation did not make progress");
+	r.cls("adversarial-network");
+	if (!up) { r.cls("handshake-failed"); return r; }
+	Bytes sip = s.server_tun_ip(), cip = sip;
+	for (auto &cmd : s.cli[0]->system_calls) {
+		unsigned a, b, cc, d; size_t p = cmd.find("ifconfig ");
+		if (p != std::string::npos && sscanf(cmd.c_str() + p, "ifconfig %*s %u.%u.%u.%u", &a, &b, &cc, &d) == 4) { cip = Bytes{(uint8_t)a, (uint8_t)b, (uint8_t)cc, (uint8_t)d}; break; }
+	}
+	std::vector<Bytes> offered;
+	auto offer = [&](const Bytes &pkt) { offered.push_back(pkt); sim::W.offer_tun(s.srv, pkt); };
+	auto incompressible = [&](size_t n, uint32_t seed) { Bytes b(n); uint32_t x = seed | 1; for (auto &v : b) { x ^= x << 13; x ^= x >> 17; x ^= x << 5; v = (uint8_t)(x >> 11); } return b; };
+	sim::W.run_for(2000000);
+	offer(scn::tun_packet(cip, sip, incompressible((size_t)c.frag * 2 + 30, 77), 0x4000));   // calibration: the fragment size the server really uses
+	sim::W.run_for(8000000);
+	if (Fd < 40) { r.cls("no-calibration"); return r; }
+	Bytes pre = scn::tun_packet(cip, sip, incompressible((size_t)Fd - 7 - 24, t.u32()), 0x4300);
+	if ((int)pre.size() != Fd - 7) { r.cls("no-calibration"); return r; }
+	Bytes mA = pre, mB = pre; bool ok = false;
+	for (size_t k = 30; k + 3 < mB.size(); k++) if (mB[k] < 255 && mB[k + 1] >= 2 && mB[k + 2] < 255) { mB[k]++; mB[k + 1] -= 2; mB[k + 2]++; ok = true; break; }
+	Bytes ta = incompressible(40, 91), tb = incompressible(40, 92);
+	mA.insert(mA.end(), ta.begin(), ta.end()); mB.insert(mB.end(), tb.begin(), tb.end());
+	Bytes za = refproto::zcompress(mA), zb = refproto::zcompress(mB);
+	ok = ok && za.size() == mA.size() + 11 && zb.size() == mB.size() + 11 && !memcmp(za.data() + 7, mA.data(), mA.size()) && !memcmp(zb.data() + 7, mB.data(), mB.size()) && (int)za.size() <= 2 * Fd;
+	if (!ok) { r.cls("no-calibration"); return r; }
+	arm = true; offer(mA); sim::W.run_for(4000000); arm = false;
+	for (int i = 0; i < between; i++) { offer(scn::tun_packet(cip, sip, Bytes(12 + i, (uint8_t)(0x40 + i)), (uint16_t)(0x4100 + i))); sim::W.run_for(1500000 + t.below(1500000)); }
+	release_on_first = true; offer(mB); sim::W.run_for(6000000); release_on_first = false;
+	sim::W.run_for(4000000);
+	r.render += scn::fmt(" | Fd=%d packets in between=%d copy taken=%d released behind a first fragment=%d", Fd, between, (int)have_copy, (int)released);
+	if (sim::W.livelock) r.fail("C01:livelock", "simulation did not make progress");
+	for (auto &w : tm.writes_of(s.cli[0]->idx)) if (std::find(offered.begin(), offered.end(), w.data) == offered.end()) {
+		r.fail("C01:merged-late-downstream-fragment-after-wrap", scn::fmt("the client wrote a %zu-byte packet to its tun device that was never offered on the server's: %s", w.data.size(), hexs(w.data, 48).c_str()) + "\n" + r.render);
+		break;
+	}
+	r.nontrivial = released && between % 8 == 7;
+	if (released) r.cls(between % 8 == 7 ? "late-copy-of-a-downstream-answer-eight-packets-on" : "late-copy-of-a-downstream-answer-without-wrap");
+	r.cls(c.lazy ? "lazy" : "immediate");
+	return r;
+}
 
 } // namespace advnet
